@@ -23,7 +23,10 @@ VERIF = os.path.dirname(os.path.dirname(os.path.abspath(__file__)))
 REPO = os.environ.get("VERIF_REPO", "/repo")
 COQ = os.path.join(VERIF, "coq")
 THEORIES = os.path.join(COQ, "theories")
-GEN = os.path.join(COQ, "gen")
+# generated obligations / case files; runs against a scratch tree (VERIF_REPO=<worktree>, used to confirm
+# seeded changes) get their own directory so that they can run next to a check of /repo
+GEN_NAME = "gen" if os.path.realpath(REPO) == "/repo" else "gen_other"
+GEN = os.path.join(COQ, GEN_NAME)
 PY = "/venv/bin/python"
 NPROC = int(os.environ.get("VERIF_NPROC", "16"))
 
@@ -203,7 +206,7 @@ def gen_coqproject():
       f.write(txt)
 
 
-COQC_FLAGS = ["-Q", "theories", "Precond", "-Q", "gen", "PrecondGen",
+COQC_FLAGS = ["-Q", "theories", "Precond", "-Q", GEN_NAME, "PrecondGen",
               "-w", "+declaration-outside-section"]
 
 
@@ -339,6 +342,11 @@ class Ctx:
     self.rng = SplitMix64(seed ^ int(hashlib.sha256(pid.encode()).hexdigest()[:8], 16))
     self.t0 = time.time()
     self.gen_dir = os.path.join(GEN, pid)
+    # one run per (tree kind, property) at a time: a second ./check of the same property waits
+    os.makedirs(GEN, exist_ok=True)
+    import fcntl
+    self._runlock = open(os.path.join(GEN, ".lock_" + pid), "w")
+    fcntl.flock(self._runlock, fcntl.LOCK_EX)
     shutil.rmtree(self.gen_dir, ignore_errors=True)
     os.makedirs(self.gen_dir, exist_ok=True)
     self.cov = dict(obligations=0, discharged=0, checker_cmd="", trusted_base=[],
